@@ -115,6 +115,14 @@ Proof. exact strictly_convex_KKT_is_unique_min. Qed.
    points with an independent active-set enumeration instead.
    NOT PROVED: convergence (that the loop returns at all): NotConverged (the NameError exit) is a legitimate outcome. *)
 
+(* bound-constrained front end (BoundConstrainedObjective): per constrained dof, with d = scaling > 0, scaled gradient g/d, scaled
+   bound d*x >= 0 and multiplier lam, KKT in the scaled variables <=> KKT in the original variables with the multiplier d*lam
+   that get_multipliers() returns.  (scaling*invScaling = 1 and get_multipliers() = lam*scaling are checked on the implementation.) *)
+Theorem C04_bound_scaling_KKT_transparent : forall d g lam x, 0 < d ->
+  (g / d - lam = 0 /\ 0 <= lam /\ 0 <= d * x /\ lam * (d * x) = 0)
+  <-> (g - d * lam = 0 /\ 0 <= d * lam /\ 0 <= x /\ (d * lam) * x = 0).
+Proof. exact bound_scaling_KKT_transparent. Qed.
+
 (* NewtonSolver.compute_min_p (hand model, tied by correspondence): stays in the bracket and minimises the interpolating parabola *)
 Theorem C04_compute_min_p_in_bounds : forall p0 p1 p2 b0 b1, b0 <= b1 -> b0 <= @compute_min_p R NumR p0 p1 p2 b0 b1 <= b1.
 Proof. exact compute_min_p_in_bounds. Qed.
